@@ -63,7 +63,9 @@ InvUpTo(f, y, n) == IF n = 0 THEN <<>>
                          IN  Append(h, IF n <= AW THEN Xor(y[n], f[h]) ELSE y[n])
 Inv(f, y) == InvUpTo(f, y, w)
 
-SmallSets(S, k) == {T \in SUBSET S : Cardinality(T) <= k}
+\* subsets of S with at most k elements (built up element by element: SUBSET S has 2^31 members at width 4)
+RECURSIVE SmallSets(_, _)
+SmallSets(S, k) == IF k = 0 THEN {{}} ELSE LET R == SmallSets(S, k - 1) IN R \cup {T \cup {x} : T \in R, x \in S}
 
 \* Options are chosen at Init; the key (salt) is chosen by one Key step, after
 \* which requests are answered.  (Splitting Init this way also lets TLC spread
@@ -77,6 +79,18 @@ Init == InitCfg /\ keyed = FALSE /\ flip = <<>>
 Key       == ~keyed /\ keyed' = TRUE /\ flip' \in Flips /\ UNCHANGED <<cfgvars, obs>>
 \* one representative flip per configuration (for theorems that do not mention flip)
 KeyOne    == ~keyed /\ keyed' = TRUE /\ flip' = (CHOOSE f \in Flips : TRUE) /\ UNCHANGED <<cfgvars, obs>>
+\* A family of flips for widths where enumerating every flip is out of reach: constant, one-hot,
+\* one-cold, alternating by depth, by last bit - each forced to 0 on pinned nodes
+Masked(g)  == [p \in FlipDomain |-> IF PinnedNode(p) THEN 0 ELSE g[p]]
+FlipFamily == {Masked(g) : g \in
+                 {[p \in FlipDomain |-> c] : c \in Bit}
+                 \cup {[p \in FlipDomain |-> IF p = q THEN 1 ELSE 0] : q \in FlipDomain}
+                 \cup {[p \in FlipDomain |-> IF p = q THEN 0 ELSE 1] : q \in FlipDomain}
+                 \cup {[p \in FlipDomain |-> Len(p) % 2], [p \in FlipDomain |-> (Len(p) + 1) % 2],
+                       [p \in FlipDomain |-> IF p = << >> THEN 1 ELSE p[Len(p)]],
+                       [p \in FlipDomain |-> IF p = << >> THEN 0 ELSE 1 - p[Len(p)]]}}
+KeyFamily == ~keyed /\ keyed' = TRUE /\ flip' \in FlipFamily /\ UNCHANGED <<cfgvars, obs>>
+NextFamily == KeyFamily
 Anon(a)   == keyed /\ obs' = obs \cup {<<a, Img(flip, a)>>} /\ UNCHANGED <<cfgvars, flip, keyed>>
 Deanon(y) == keyed /\ obs' = obs \cup {<<Inv(flip, y), y>>} /\ UNCHANGED <<cfgvars, flip, keyed>>
 Request   == \E a \in Addr : Anon(a) \/ Deanon(a)
